@@ -4,6 +4,8 @@ Correspondence (real skyllh code vs. Model/Stat.lean through Driver/C12.lean):
   * WilksTestStatistic / LLHRatioZeroNsTaylorWilksTestStatistic on real ParameterModelMapper objects (ns at
     different fit-parameter positions), with a recording stub LLH ratio and with real single-/multi-dataset
     LLH-ratio objects (harness/llh_fixtures.py): value equality (the operations are exact) resp. 1e-9 relative;
+  * histories of 2..6 calls on ONE instance of either class across different layouts: every call against the
+    stateless model (the model has no notion of object state), plus a fresh-vs-used-object oracle;
   * calculate_ns_grad2 of the real LLH-ratio classes vs. nsGrad2 / nsGrad2Multi: 1e-9 * sum of magnitudes;
   * calculate_pval_from_trials: p as an exact rational k/n, p_sigma 1e-12 relative, exception kinds exact;
   * calculate_pval_from_trials_mixed: routing decision and eta default, exact;
@@ -255,29 +257,41 @@ def _call(fn):
 # ------------------------------------------------------------------------------------------
 # test statistic: implementation adapters
 
-def impl_ts(case):
-    from skyllh.core.test_statistic import WilksTestStatistic
-    pmm, idx, fp = _fitparams(case['layout'], _f(case['ns']))
-    return _call(lambda: float(WilksTestStatistic()(pmm=pmm, log_lambda=np.float64(_f(case['ll'])), fitparam_values=fp)))
+def _ts_new(cls):
+    from skyllh.core.test_statistic import WilksTestStatistic, LLHRatioZeroNsTaylorWilksTestStatistic
+    return {'wilks': WilksTestStatistic, 'taylor': LLHRatioZeroNsTaylorWilksTestStatistic}[cls]()
 
 
-def impl_tst(case):
-    from skyllh.core.test_statistic import LLHRatioZeroNsTaylorWilksTestStatistic
-    pmm, idx, fp = _fitparams(case['layout'], _f(case['ns']))
+def _fp_of(case):
+    others = case.get('others')
+    if others:
+        return _fitparams(case['layout'], _f(case['ns']), rng_vals=tuple(_fl(others)))
+    return _fitparams(case['layout'], _f(case['ns']))
+
+
+def impl_ts(case, tsobj=None):
+    pmm, idx, fp = _fp_of(case)
+    if tsobj is None:
+        tsobj = _ts_new('wilks')
+    return _call(lambda: float(tsobj(pmm=pmm, log_lambda=np.float64(_f(case['ll'])), fitparam_values=fp)))
+
+
+def impl_tst(case, tsobj=None):
+    pmm, idx, fp = _fp_of(case)
     grads = np.array([0.125 * (i + 1) for i in range(len(fp))], dtype=np.float64)
     grads[idx] = _f(case['a'])
     stub = _StubLLH(_f(case['b']), grads)
     kw = dict(pmm=pmm, log_lambda=np.float64(_f(case['ll'])), fitparam_values=fp, llhratio=stub)
     if case.get('pass_grads', True):
         kw['grads'] = grads
-    v, err = _call(lambda: float(LLHRatioZeroNsTaylorWilksTestStatistic()(**kw)))
+    if tsobj is None:
+        tsobj = _ts_new('taylor')
+    v, err = _call(lambda: float(tsobj(**kw)))
     return v, err, stub.calls, idx
 
 
-def o_ts(ctx, case):
-    """documented definition: TS = 2 sgn(ns) logΛ, sgn(0) = +1 (exact: the operations involved are exact)"""
+def _check_ts(case, v, err):
     ns, ll = _f(case['ns']), _f(case['ll'])
-    v, err = impl_ts(case)
     if err:
         return 'WilksTestStatistic(ns=%r, log_lambda=%r, ns at fit-parameter %s) raised %s' % (ns, ll, case['layout'], err)
     want = 2.0 * ll if ns >= 0 else -2.0 * ll
@@ -287,14 +301,18 @@ def o_ts(ctx, case):
     return None
 
 
+def o_ts(ctx, case):
+    """documented definition: TS = 2 sgn(ns) logΛ, sgn(0) = +1 (exact: the operations involved are exact)"""
+    v, err = impl_ts(case)
+    return _check_ts(case, v, err)
+
+
 def _apex_exact(a, b):
     return float(Fraction(-2) * Fraction(a) ** 2 / (4 * Fraction(b)))
 
 
-def o_ts_taylor(ctx, case):
-    """documented definition of the zero-ns Taylor variant (stub LLH ratio with prescribed a, b)"""
+def _check_tst(case, v, err, calls, idx):
     ns, ll, a, b = _f(case['ns']), _f(case['ll']), _f(case['a']), _f(case['b'])
-    v, err, calls, idx = impl_tst(case)
     if err:
         return 'LLHRatioZeroNsTaylorWilksTestStatistic(ns=%r, log_lambda=%r, layout %s) raised %s' % (ns, ll, case['layout'], err)
     if ns == 0:
@@ -310,6 +328,65 @@ def o_ts_taylor(ctx, case):
         if not _same(v, want):
             return 'Taylor-variant TS(ns=%r, log_lambda=%r) = %r, documented 2*sgn(ns)*log_lambda = %r' % (ns, ll, v, want)
     return None
+
+
+def o_ts_taylor(ctx, case):
+    """documented definition of the zero-ns Taylor variant (stub LLH ratio with prescribed a, b)"""
+    return _check_tst(case, *impl_tst(case))
+
+
+# ---- histories of calls on ONE test-statistic instance
+
+def impl_hist(case):
+    """all calls of the history on one instance: list of (value, err, stub calls, idx)"""
+    obj = _ts_new(case['cls'])
+    out = []
+    for c in case['calls']:
+        if case['cls'] == 'wilks':
+            v, err = impl_ts(c, obj)
+            out.append((v, err, None, None))
+        else:
+            out.append(impl_tst(c, obj))
+    return out
+
+
+def o_ts_history(ctx, case):
+    """a test-statistic object has no memory: every call of a history on one instance (changing parameter
+    layouts / position of ns / signs / LLH ratios) gives what a fresh instance gives for the same arguments, and
+    the documented value"""
+    used = impl_hist(case)
+    for i, (c, u) in enumerate(zip(case['calls'], used)):
+        if case['cls'] == 'wilks':
+            fv, ferr = impl_ts(c)
+            d = _check_ts(c, u[0], u[1])
+        else:
+            fv, ferr, _fc, _fi = impl_tst(c)
+            d = _check_tst(c, *u)
+        if (u[1] is None) != (ferr is None) or (u[1] is None and not _same(u[0], fv)):
+            prev = ', '.join('%s/ns=%r' % (q['layout'], _f(q['ns'])) for q in case['calls'][:i])
+            return ('call %d of a history on one %s test-statistic instance (layout %s, ns=%r, log_lambda=%r; earlier calls: %s) gives %s, '
+                    'a fresh instance gives %s' % (i + 1, case['cls'], c['layout'], _f(c['ns']), _f(c['ll']), prev,
+                                                   u[1] or repr(u[0]), ferr or repr(fv)))
+        if d:
+            return 'call %d of a history on one instance: %s' % (i + 1, d)
+    return None
+
+
+def _shrink_hist(ctx, case, fn):
+    """smallest failing sub-history: a pair (earlier call, failing call), else a prefix"""
+    calls = case['calls']
+    for n in range(1, len(calls) + 1):
+        sub = dict(case, calls=calls[:n])
+        if fn(ctx, sub):
+            last = calls[n - 1]
+            if fn(ctx, dict(case, calls=[last])):
+                return dict(case, calls=[last])
+            for j in range(n - 1):
+                pair = dict(case, calls=[calls[j], last])
+                if fn(ctx, pair):
+                    return pair
+            return sub
+    return case
 
 
 # ---- real LLH-ratio objects
@@ -803,6 +880,8 @@ def corr_compare(case, model):
 def o_corr(ctx, case):
     if case['kind'] == 'real':
         return _corr_real(ctx, [case])[0]
+    if case['kind'] == 'hist':
+        return _corr_hist(ctx, [case])[0]
     return corr_compare(case, ctx.driver('C12', [corr_request(case)])[0])
 
 
@@ -876,7 +955,27 @@ def _corr_real(ctx, cases):
     return res
 
 
-ORACLES = {'ts': o_ts, 'ts_taylor': o_ts_taylor, 'ts_real': o_ts_real, 'ana_chain': o_ana_chain,
+def _corr_hist(ctx, hcases):
+    """every call of a history (one instance) against the stateless model"""
+    reqs = []
+    for h in hcases:
+        for c in h['calls']:
+            reqs.append(corr_request(dict(c, kind='ts' if h['cls'] == 'wilks' else 'tst')))
+    ans = iter(ctx.driver('C12', reqs) if reqs else [])
+    res = []
+    for h in hcases:
+        used = impl_hist(h)
+        d = None
+        for i, (c, u) in enumerate(zip(h['calls'], used)):
+            m = b2f(next(ans))
+            if d is None and (u[1] or not _close(u[0], m, 0.0 if h['cls'] == 'wilks' else 1e-12 * abs(m))):
+                d = 'hist: call %d (%s, layout %s, ns=%r): implementation %s, stateless model %r' % (
+                    i + 1, h['cls'], c['layout'], _f(c['ns']), u[1] or repr(u[0]), m)
+        res.append(d)
+    return res
+
+
+ORACLES = {'ts_history': o_ts_history, 'ts': o_ts, 'ts_taylor': o_ts_taylor, 'ts_real': o_ts_real, 'ana_chain': o_ana_chain,
            'pval': o_pval, 'mixed': o_mixed, 'poly': o_poly, 'corr': o_corr}
 
 # property oracle looking at the same behaviour as a correspondence kind, and how to turn the case into its input
@@ -884,6 +983,7 @@ _ORACLE_OF_KIND = {
     'ts': [('ts', lambda c: c)],
     'tst': [('ts_taylor', lambda c: c)],
     'real': [('ts_real', lambda c: c), ('ana_chain', lambda c: c)],
+    'hist': [('ts_history', lambda c: c)],
     'pv': [('pval', lambda c: {'tsv': c['tsv'], 'thrs': [c['thr']]})],
     'mix': [('mixed', lambda c: c), ('pval', lambda c: {'tsv': c['tsv'], 'thrs': [c['thr']]})],
     'poly': [('poly', lambda c: c)],
@@ -891,10 +991,12 @@ _ORACLE_OF_KIND = {
 
 
 def _classify(res):
+    if 'a fresh instance gives' in res:
+        return 'depends-on-earlier-calls'
     m = re.search(r'raised (\w+)', res)
     if m:
         return 'raises-' + m.group(1)
-    for key, tag in (('outside [0,1]', 'range'), ('increases with', 'not-antitone'), ('smaller than the strict', 'ge-smaller'),
+    for key, tag in (('a fresh instance gives', 'depends-on-earlier-calls'), ('outside [0,1]', 'range'), ('increases with', 'not-antitone'), ('smaller than the strict', 'ge-smaller'),
                      ('trials', 'wrong-count'), ('falling branch', 'wrong-root'), ('never reaches', 'no-root'),
                      ('instead of raising', 'no-error')):
         if key in res:
@@ -993,6 +1095,21 @@ def gen_real(rng, nprng):
     return c
 
 
+def gen_hist(rng):
+    cls = rng.choice(['wilks', 'taylor'])
+    n = rng.choice([2, 2, 3, 4, 6])
+    calls = []
+    for _ in range(n):
+        c = {'layout': rng.choice(['ns0', 'ns1', 'ns2']), 'ns': gen_ns(rng), 'll': gen_ll(rng),
+             'others': [rng.choice([2.5, -2.5, 0.0, 7.0, -3.0, 1e-3, -1e-3]) for _ in range(4)]}
+        if cls == 'taylor':
+            c['a'] = rng.choice([0.0, -0.3, 0.7, rng.gauss(0, 2)])
+            c['b'] = rng.choice([-0.05, -1.0, -rng.uniform(1e-6, 10)])
+            c['pass_grads'] = rng.random() < 0.7
+        calls.append(c)
+    return {'kind': 'hist', 'cls': cls, 'calls': calls}
+
+
 _PNAMES = ['ns', 'ns_pidx', 'src_params_recarray', 'tl', 'fitparam_values', 'grads', 'llhratio', 'pmm']
 
 
@@ -1012,7 +1129,8 @@ def run(ctx):
     rng = ctx.rng
     nprng = ctx.np_rng
     ctx.rule = ('fit results: ns in {<0, -0.0, +0.0, >0, denormal, huge} x any log-likelihood value x position of ns among '
-                '1..4 fit parameters; real single-/multi-dataset LLH ratios (1..3 datasets, 1..3 sources, 1..8 selected and '
+                '1..4 fit parameters; histories of 2..6 calls on ONE test-statistic instance (both classes) with changing layouts, '
+                'positions of ns, signs, values of the other fit parameters and LLH-ratio objects; real single-/multi-dataset LLH ratios (1..3 datasets, 1..3 sources, 1..8 selected and '
                 '0..20 pure-background events); TS samples of 0..200 values (grid values with ties and duplicates, constant, '
                 'chi2-like, floats) x thresholds at sample values, their float neighbours, midpoints, outside, +-inf; monotone '
                 'p(ns) curves (linear, concave, convex, sigmoid; increasing and decreasing) with binomial noise, 3..12 points, '
@@ -1042,6 +1160,12 @@ def run(ctx):
         c = {'kind': 'tst', 'layout': layout, 'ns': ns, 'll': ll, 'a': a, 'b': b}
         cases.append(c)
         ocases.append(('ts_taylor', c))
+    # ---- histories on one test-statistic instance
+    hists = [gen_hist(rng) for _ in range(ctx.n(150, 4000))]
+    for h in hists:
+        ctx.count('hist:%s:len=%d' % (h['cls'], len(h['calls'])))
+        ctx.count('hist:layout-changes', sum(1 for a, b in zip(h['calls'], h['calls'][1:]) if a['layout'] != b['layout']))
+        ocases.append(('ts_history', h))
     # ---- real LLH ratios
     reals = [gen_real(rng, nprng) for _ in range(ctx.n(40, 1500))]
     for c in reals:
@@ -1102,12 +1226,20 @@ def run(ctx):
         ctx.count('corr:real')
         if d:
             suspicious.append((c, None, d))
+    for c, d in zip(hists, _corr_hist(ctx, hists)):
+        ctx.case(nontrivial=True, key=c, desc=c if ctx.evaluations % 197 == 0 else None)
+        ctx.count('corr:hist')
+        if d:
+            suspicious.append((c, None, d))
     # ---- property oracles on the implementation
     for name, oc in ocases:
         ctx.case(nontrivial=True, key=(name, oc), desc={'oracle': name, 'case': oc} if ctx.evaluations % 499 == 0 else None)
         ctx.count('oracle:' + name)
         res = ORACLES[name](ctx, oc)
         if res:
+            if name == 'ts_history':
+                oc = _shrink_hist(ctx, oc, o_ts_history)
+                res = o_ts_history(ctx, oc) or res
             ctx.violation(name, oc, res, signature='C12/%s/%s' % (name, _classify(res)))
     # ---- disagreements: look for a failing input, else report the relation that no longer holds
     seen = set()
@@ -1138,8 +1270,9 @@ MANIFEST = dict(
           'degree-1/2 inversion returns a point of the fitted curve on its rising branch, degree switch; call-compatibility of '
           'calculate_ns_grad2 and of the Analysis -> TestStatistic call chain decided over signatures regenerated from the source. '
           'The model is compared on every run with the real TestStatistic classes (real ParameterModelMapper, real single- and '
-          'multi-dataset LLH ratios), calculate_pval_from_trials(_mixed), polynomial_fit and the Python interpreter\'s keyword binding.'),
-    note=('np.polyfit is recorded, not modelled; the gamma-fit branch of the mixed p-value is only checked for routing; IEEE rounding '
+          'multi-dataset LLH ratios; single calls and histories of calls on one instance), calculate_pval_from_trials(_mixed), polynomial_fit and the Python interpreter\'s keyword binding.'),
+    note=('the model is stateless: object state of the TestStatistic classes is covered by history-level correspondence and a '
+          'fresh-vs-used-object oracle, not by a state-machine theorem; np.polyfit is recorded, not modelled; the gamma-fit branch of the mixed p-value is only checked for routing; IEEE rounding '
           'is outside the theorems; the second derivative is proved for the numerically stable regime (which contains ns = 0).'),
     design='DESIGN.md section 4 C12',
     technique='Lean 4 proof (real analysis: HasDerivAt, order/counting induction, algebra) + decide over generated signatures + '
